@@ -44,8 +44,51 @@ def kwargs_scenarios(draw):
     return {"scenario": "kwargs_keyword", "files": {"cfg.py": cfg, "main.py": main}, "expected": expected}
 
 
+def _build(parts_by_file):
+    """{path: [text | (identifier, group)]} -> files, {group: [[path, offset], ...]}"""
+    files, groups = {}, {}
+    for path, parts in parts_by_file.items():
+        text = ""
+        for part in parts:
+            if isinstance(part, tuple):
+                groups.setdefault(part[1], []).append([path, len(text)])
+                text += part[0]
+            else:
+                text += part
+        files[path] = text
+    return files, groups
+
+
+@st.composite
+def header_scenarios(draw):
+    """a class header that spans several lines: the base and the metaclass keyword value stand on continuation lines and
+    are also names of members of the class (two different bindings each)"""
+    b, m = draw(st.sampled_from([("base", "meta"), ("handler", "kind"), ("_b", "M2")]))
+    one_line = draw(st.integers(0, 3)) == 0
+    sep1, sep2, sep3 = ("", ", ", "") if one_line else ("\n    ", ",\n    ", ",\n")
+    files, groups = _build({"hdr.py": [
+        (b, "outer_" + b), " = object\n", (m, "outer_" + m), " = type\nclass C(" + sep1, (b, "outer_" + b), sep2 + "metaclass=", (m, "outer_" + m), sep3 + "):\n    ",
+        (b, "member_" + b), " = 3\n    ", (m, "member_" + m), " = 4\nprint(C.", (b, "member_" + b), ", C.", (m, "member_" + m), ", C.__mro__[1] is ", (b, "outer_" + b), ", type(C) is ", (m, "outer_" + m), ")\n",
+    ]})
+    return {"scenario": "class_header_lines", "files": files, "expected": groups}
+
+
+@st.composite
+def star_scenarios(draw):
+    """several star imports that export the same name: the LAST one binds it"""
+    mods = draw(st.permutations(["s1", "s2", "s3"]))[: draw(st.integers(2, 3))]
+    parts = {}
+    for k_, mname in enumerate(mods):
+        parts[mname + ".py"] = [("width", "width_of_" + mname), " = %d\n" % (k_ + 1), ("only_" + mname, "only_" + mname), " = 0\n"]
+    last = mods[-1]
+    use = ["from %s import *\n" % m_ for m_ in mods] + ["print(", ("width", "width_of_" + last), " + ", ("only_" + mods[0], "only_" + mods[0]), ")\n"]
+    parts["use.py"] = use
+    files, groups = _build(parts)
+    return {"scenario": "star_import_order", "files": files, "expected": groups}
+
+
 def strategy(tier):
-    return st.one_of(*([projgen.projects()] * 15 + [kwargs_scenarios()]))
+    return st.one_of(*([projgen.projects()] * 15 + [kwargs_scenarios(), header_scenarios(), star_scenarios()]))
 
 
 def describe(case):
